@@ -749,6 +749,69 @@ func runC17Backoff(c *Ctx) {
 		c.Check(maxOK, "R4.backoff", "NewSigner|WithMax(conf.Retries)", w.FnPos(ns), "retry budget from the configuration", "the retry interceptor is not given conf.Retries")
 		c.Check(boOK, "R4.backoff", "NewSigner|WithBackoff(DefaultConfig.Backoff)", w.FnPos(ns), "the repository's capped, jittered backoff is installed", "the retry interceptor does not use backoff.DefaultConfig.Backoff")
 	}
+	// the retry settings the constructor installs are usable whatever the configuration says: where the package puts
+	// a default into a numeric setting, it does so for every value that is not positive (a negative per-try timeout
+	// left in place makes every attempt's context expire at once: no endpoint is ever contacted)
+	nDef := 0
+	for _, fn := range w.FuncsOfPkg(crypkiPkg) {
+		for _, b := range fn.Blocks {
+			for _, ins := range b.Instrs {
+				st, ok := ins.(*ssa.Store)
+				if !ok {
+					continue
+				}
+				fa, ok := st.Addr.(*ssa.FieldAddr)
+				if !ok {
+					continue
+				}
+				bt, isBasic := st.Val.Type().Underlying().(*types.Basic)
+				if !isBasic || bt.Info()&types.IsInteger == 0 {
+					continue
+				}
+				cv := throughCell(strip(st.Val))
+				if _, isConst := cv.(*ssa.Const); !isConst {
+					if ld, isLd := cv.(*ssa.UnOp); !isLd || ld.Op != token.MUL {
+						continue
+					} else if _, isG := ld.X.(*ssa.Global); !isG {
+						continue
+					}
+				}
+				// the guard: a comparison of the same field with a constant, on whose edge this store sits
+				ff := w.factsOf(fn)
+				var guard *ssa.BinOp
+				pol := false
+				for l := range ff.Primary(b) {
+					bin, ok := l.V.(*ssa.BinOp)
+					if !ok {
+						continue
+					}
+					ld, ok := throughCell(strip(bin.X)).(*ssa.UnOp)
+					if !ok || ld.Op != token.MUL {
+						continue
+					}
+					fa2, ok := ld.X.(*ssa.FieldAddr)
+					if !ok || fa2.Field != fa.Field || fa2.X != fa.X {
+						continue
+					}
+					guard, pol = bin, l.Pol
+				}
+				if guard == nil {
+					continue // not a default (a plain initialisation)
+				}
+				nDef++
+				k, isK := intConst(guard.Y)
+				op := guard.Op
+				if !pol {
+					op = negOp(op)
+				}
+				signed := bt.Info()&types.IsUnsigned == 0
+				okG := isK && ((op == token.LEQ && k == 0) || (op == token.LSS && k == 1) || (!signed && op == token.EQL && k == 0))
+				name := fieldName(fa.X.Type(), fa.Field)
+				c.Check(okG, "R4.backoff", shortFn(fn)+"|default for "+name+" covers every non-positive value", w.Pos(st.Pos()), "the default is installed under "+name+" <= 0 (== 0 for an unsigned setting)", "the default for "+name+" is installed under ("+w.Short(guard)+")="+boolStr(pol)+" only: a negative configured value stays in place")
+			}
+		}
+	}
+	c.Floor("R4.backoff", nDef, 1, "defaults installed into numeric retry settings")
 }
 
 // cloneOfField: method h returns, on every path, its receiver's slice field F itself or a new slice of len(F)
